@@ -298,7 +298,7 @@ pub fn run(tier: Tier) -> i32 {
         }
     }
     // compiler-shaped circuits: program families, reporting only C10 side checks
-    let (jobs, plan) = c01::family_jobs(tier, &["E-small", "S", "P"]);
+    let (jobs, plan) = c01::family_jobs(tier, &["E-small", "S", "P", "L"]);
     let fr = c01::run_jobs(jobs, c01::attribution_for, &budget, plan);
     for v in fr.coll.violations.lock().unwrap().iter() {
         coll.push(v.clone());
